@@ -65,6 +65,7 @@ class Fn:
         self.s_ensures = kw.pop("s_ensures", [])     # clauses checked only symbolically (three-state clauses using after(...))
         self.abstract = kw.pop("abstract", False)    # contract only (callee not verified: listed as assumption)
         self.params = kw.pop("params", None)         # for abstract contracts: parameter names
+        self.tier = kw.pop("tier", "quick")          # "thorough": the function is verified in the thorough tier only (many paths)
         if kw:
             raise TypeError(f"unknown contract keys {list(kw)} for {key}")
 
